@@ -164,9 +164,13 @@ def _dedup(xs):
 
 
 # -- transform_comparison ----------------------------------------------------------------
+VALUE_EQ: Dict[str, List[Tuple[bool, List[str]]]] = {}
+
+
 def comparison_templates(lang: str, fn: ast.FunctionDef) -> List[List[str]]:
     # comparator = Transpiler._X_COMPARISON_MAP[node.op]
     ok = False
+    value_eq: List[Tuple[bool, List[str]]] = []
     for n in ast.walk(fn):
         if isinstance(n, ast.Assign) and len(n.targets) == 1 and isinstance(n.targets[0], ast.Name) \
                 and n.targets[0].id == "comparator":
@@ -197,11 +201,25 @@ def comparison_templates(lang: str, fn: ast.FunctionDef) -> List[List[str]]:
                 raise TranslateError(f"{lang}: transform_comparison returns a non-template")
             t = template(v)
             residue = "".join(x for k, x in t if k == "lit")
+            if lang == "java" and residue.replace(" ", "") in ("Objects.equals(,)", "!Objects.equals(,)"):
+                # by-value comparison of two reference operands (strings, boxed numbers)
+                value_eq.append((residue.strip().startswith("!"), [x for k, x in t if k == "hole"]))
+                continue
             if residue.strip(" ()") != "":
                 raise TranslateError(f"{lang}: literal text {residue!r} in a comparison template")
             out.append([x for k, x in t if k == "hole"])
     if not out:
         raise TranslateError(f"{lang}: transform_comparison returns no template")
+    if value_eq:
+        # they must sit under `node.op in (EQ, NE) and <both operands compared by reference>`
+        guards = [ast.unparse(n.test) for n in ast.walk(fn) if isinstance(n, ast.If)]
+        if not any("Comparator.EQ" in g and "Comparator.NE" in g and "node.left" in g and "node.right" in g
+                   for g in guards):
+            raise TranslateError("java: Objects.equals templates without the EQ/NE guard on both operands")
+        if not any(g.replace(" ", "") in ("node.opisparse_tree.Comparator.EQ", "node.op==parse_tree.Comparator.EQ")
+                   for g in guards):
+            raise TranslateError("java: cannot see which Objects.equals template belongs to EQ")
+    VALUE_EQ[lang] = value_eq
     return out
 
 
@@ -376,8 +394,10 @@ def extract_lang(lang: str) -> Dict[str, Any]:
     if fn_cmp is None or fn_not is None or fn_imp is None:
         raise TranslateError(f"{lang}: missing transform_comparison / _not / _implication")
     a, o = and_or_shapes(lang, cls)
+    cmp_templates = comparison_templates(lang, fn_cmp)
     return {"comparison_map": cmap,
-            "cmp_templates": comparison_templates(lang, fn_cmp),
+            "cmp_templates": cmp_templates,
+            "value_eq_templates": list(VALUE_EQ.get(lang, [])),
             "not_shapes": not_shapes(lang, fn_not),
             "impl_shapes": impl_shapes(lang, fn_imp),
             "and_shapes": a, "or_shapes": o}
@@ -413,6 +433,11 @@ def gen_operator_tables() -> str:
                    + ";\n  ".join(f"({_t(k)}, {_t(v)})" for k, v in d["comparison_map"]) + "].")
         out.append(f"Definition {lang}_cmp_templates : list (list text) := ["
                    + "; ".join("[" + "; ".join(_t(h) for h in hs) + "]" for hs in d["cmp_templates"]) + "].")
+        out.append(f"(* templates `Objects.equals(l, r)` / `!Objects.equals(l, r)` used for EQ / NE when both "
+                   f"operands are references: (negated, holes) *)")
+        out.append(f"Definition {lang}_value_eq_templates : list (bool * list text) := ["
+                   + "; ".join(f"({'true' if neg else 'false'}, [" + "; ".join(_t(h) for h in hs) + "])"
+                               for neg, hs in d["value_eq_templates"]) + "].")
         for key in ("not_shapes", "impl_shapes", "and_shapes", "or_shapes"):
             out.append(f"Definition {lang}_{key} : list shape := [\n  "
                        + ";\n  ".join(_shape(s) for s in d[key]) + "].")
